@@ -52,9 +52,9 @@ CLAIMED = {
     "C15": ("Proved on the model: toMultiAlign --start/--end is the slice of the untrimmed row (flank rewrite happens first), with --pad it masks outside the window, legacy --trimstart a/--trimend b equals --start a+1/--end b, --wrap only re-breaks (stripping line breaks gives the sequence, lines have width w), the variants window keeps exactly s <= p <= e for the bounds given; toPairAlign --start s --end e cuts both rows from the column of reference base s to that of base e (non-gap columns with s-1 / e-1 reference bases to their left) and the reference bases inside the cut are exactly bases s..e, for any rows and insertions. Correspondence: groups of runs of sam.ToMultiAlign, sam.ToPairAlign and variants.Variants under each option against the unrestricted run (compared as the statement says) and against the Coq models; through the built binary: exhaustive windows on a small reference with legacy vs new flags, and variants from stdin vs file.",
             "Coq proof (definitional slices, induction for wrap) + metamorphic correspondence check incl. the binary",
             "cobra flag parsing trusted; stdin-vs-file equality is decided by the binary runs only.", "5 C15"),
-    "C08": ("Proved, for any sizes and any number of bins: each bin's bounded online catchment equals the first K of the stable sort by (distance, fewer ambiguities, file order) (the shared TopK theorem, any strict weak order); the round-robin fill ends with every bin at level r+1 or r of its own spare supply (closed form: sizes within [min(requested, available), available], even up to one), terminates with fuel above the total spare supply, never exceeds the total and stops exactly when the supply is exhausted or the total is reached. whichWay equals the column-wise definition of the statement for sequences of any width over an A/C/G/T reference (bin by which sequence carries differences the other lacks, distance = columns where both are A/C/G/T and differ, pair threshold on hidden differences); in size mode every reported bin is a prefix of its candidates stably sorted by (distance, ambiguities); under --dist-push k a bin is exactly the candidates at the k smallest occurring distances, nearest first, for any k>=1 and any candidate list (invariant over the map/eviction bookkeeping). The float32 threshold (SpecFloat), option normalisation, the composition of the stages and both writers are an executable Coq model compared byte for byte with updown.TopRanking; table outputs are checked against an oracle written from the statement.",
+    "C08": ("Proved, for any sizes and any number of bins: each bin's bounded online catchment equals the first K of the stable sort by (distance, fewer ambiguities, file order) (the shared TopK theorem, any strict weak order); the round-robin fill ends with every bin at level r+1 or r of its own spare supply (closed form: sizes within [min(requested, available), available], even up to one), terminates with fuel above the total spare supply, never exceeds the total and stops exactly when the supply is exhausted or the total is reached. whichWay equals the column-wise definition of the statement for sequences of any width over an A/C/G/T reference (bin by which sequence carries differences the other lacks, distance = columns where both are A/C/G/T and differ, pair threshold on hidden differences); in size mode every reported bin is a prefix of its candidates stably sorted by (distance, ambiguities); under --dist-push k a bin is exactly the candidates at the k smallest occurring distances, nearest first, for any k>=1 and any candidate list (invariant over the map/eviction bookkeeping). Composed (core_eq_spec): for FASTA-derived rows the core of the command equals a specification command built from those specs, for any numbers of queries and targets and any option set. The float32 threshold (SpecFloat), option normalisation, FASTA/CSV reading and both writers are an executable Coq model compared byte for byte with updown.TopRanking; table outputs are checked against an oracle written from the statement.",
             "Coq proof (TopK invariant; balance closed form, termination and totals by induction) + correspondence check + statement-level oracle",
-            "PARTIAL: the stages are proved separately; their composition into the printed rows (csv reading, --ignore/--threshold-target filters, writers) is decided by the oracle and the differential run.", "5 C08"),
+            "The pair-threshold formula (float32 ratio of hidden differences) and the writers are taken as in the code (model = spec there); FASTA/CSV reading is C09/C16.", "5 C08"),
     "C09": ("Proved: the five fields `updown list` writes for a well-formed line are parsed back to exactly that line (split/join and decimal round trips, ranges a / a-b); every line computed from a valid sequence is well-formed, so reading the CSV row of a sequence gives the line of the sequence; consequently the command core returns the same output for all four csv/fasta combinations, one row per query in order. Correspondence with the real commands: updown list derives the CSVs, topranking runs in the four combinations and the outputs must be byte-identical; the fasta/fasta run is compared with the Coq model.",
             "Coq proof (parse-print round trip at field level) + four-combination correspondence check",
             "encoding/csv (line -> fields) is a trusted library; IDs without , \" CR LF.", "5 C09"),
